@@ -1,31 +1,48 @@
 #!/usr/bin/env python3
-"""Writes the detection matrix (DESIGN.md section 10.6) from seeded/*/meta.json and out/mutants.log."""
+"""Rebuilds DESIGN.md section 10.6 (between the MATRIX markers) from seeded/*/meta.json and matrix/last_run.log (lib/matrix_run.sh)."""
 import json, os, re, glob
 V = os.path.dirname(os.path.dirname(os.path.abspath(__file__)))
+last = {}
+lg = os.path.join(V, "matrix", "last_run.log")
+if os.path.exists(lg):
+    for ln in open(lg):
+        m = re.match(r"(\S+) (\S+) prop=(\S+) check_exit=(\d+) violations=(\d+) :: (.*)", ln)
+        if m:
+            last[m.group(2)] = m.groups()
+def cur(name):
+    if name not in last:
+        return "not re-run"
+    when, _, prop, rc, viol, first = last[name]
+    return "exit %s, %s VIOLATION lines" % (rc, viol)
 rows = []
 for d in sorted(glob.glob(os.path.join(V, "seeded", "*", "meta.json"))):
     m = json.load(open(d))
     rows.append((m["breaks_property"], m["id"], m["summary"], m["needs"], m["status"], m["checks_run"]))
+n_first = sum(1 for r in rows if r[4] == "detected")
 out = ["### 10.6 Detection matrix", "",
-       "**Changes written by independent sub-agents** (each given only the text of one property and a scratch worktree; confirmed by",
-       "`lib/confirm_seed.sh`: compiles, the repository's suite passes with the change, the sub-agent's demonstration fails with it and",
-       "passes without it; stored under `seeded/<id>/` with `patch.diff`, the demonstration test and `meta.json`):", "",
-       "| property | seeded change | what it needs to manifest | outcome of `./check <property> quick` |", "|---|---|---|---|"]
+       "**Changes written by independent sub-agents** (%d; each sub-agent was given only the text of one property, the list of mechanisms already used for it, and a scratch" % len(rows),
+       "worktree; each change was confirmed by `lib/confirm_seed.sh`: compiles, the repository's suite passes with the change, the sub-agent's demonstration fails",
+       "with it and passes without it; stored under `seeded/<id>/` with `patch.diff`, the demonstration test and `meta.json`). %d were caught by the quick check as it" % n_first,
+       "stood when the change arrived, %d only after the strengthening described in 10.5. The last column is the latest full re-run of every stored change against" % (len(rows) - n_first),
+       "the committed checks (`lib/matrix_run.sh`, `matrix/last_run.log`).", "",
+       "| property | seeded change | what it needs to manifest | outcome when it arrived | latest re-run of `./check <property> quick` |", "|---|---|---|---|---|"]
 for p, i, s, n, st, ran in sorted(rows):
-    out.append("| %s | `%s`: %s | %s | %s |" % (p, i, s.replace("|", "/"), n.replace("|", "/"), ran.replace("|", "/")))
-out += ["", "**Mutants named in the property texts and reverts of the four repairs** (`mutants/*.patch`, applied to a scratch worktree by",
-        "`lib/mutant_run.sh`, which first runs the repository's suite on the mutant and then the quick check of the targeted property):", "",
-        "| mutant | suite on the mutant | quick check | first deviation reported |", "|---|---|---|---|"]
-last = {}
-lg = os.path.join(V, "out", "mutants.log")
-if os.path.exists(lg):
-    for ln in open(lg):
-        m = re.match(r"\S+ (\S+) prop=(\S+) suite_exit=(\S+) check_exit=(\d+) violations=(\d+) :: (.*)", ln)
-        if m:
-            last[m.group(1)] = m.groups()
-for name in sorted(last):
-    _, prop, suite, rc, viol, first = last[name]
-    first = re.sub(r"^DEVIATION line=\d+ ", "", first)[:150].replace("|", "/")
-    out.append("| `%s` (%s) | %s | exit %s, %s violation lines | %s |" % (name, prop, "passes" if suite == "0" else "exit " + suite, rc, viol, first))
-open(os.path.join(V, "out", "matrix.md"), "w").write("\n".join(out) + "\n")
-print("\n".join(out[:12]))
+    out.append("| %s | `%s`: %s | %s | %s | %s |" % (p, i, s.replace("|", "/"), str(n).replace("|", "/"), ran.replace("|", "/"), cur(i)))
+out += ["", "**Mutants named in the property texts and reverts of the four repairs** (`mutants/*.patch`; the repository's suite passes on every one of them, checked by",
+        "`lib/mutant_run.sh` when they were written):", "",
+        "| mutant | latest re-run of the quick check | first deviation reported |", "|---|---|---|"]
+for f in sorted(glob.glob(os.path.join(V, "mutants", "*.patch"))):
+    name = os.path.basename(f)[:-6]
+    first = re.sub(r"^DEVIATION line=\d+ ", "", last[name][5])[:170].replace("|", "/") if name in last else ""
+    out.append("| `%s` | %s | %s |" % (name, cur(name), first))
+text = "\n".join(out) + "\n"
+dp = os.path.join(V, "DESIGN.md")
+d = open(dp).read()
+B, E = "<!-- MATRIX-BEGIN -->\n", "<!-- MATRIX-END -->\n"
+if B in d:
+    d = d[:d.index(B) + len(B)] + text + d[d.index(E):]
+else:
+    i = d.index("### 10.6 Detection matrix")
+    d = d[:i] + B + text + E
+open(dp, "w").write(d)
+print("matrix: %d seeds (%d first-time), %d mutants, %d re-run lines" % (len(rows), n_first, len(glob.glob(os.path.join(V, "mutants", "*.patch"))), len(last)))
